@@ -140,48 +140,6 @@ def scenario(ctx, rng, o, kind):
         sc.close()
 
 
-def reader_closed_keeps_sending(ctx, rng, which):
-    """One endpoint stops receiving (the tunnel's send to it fails with EPIPE) but keeps sending: that ends ONE
-    direction; everything the endpoint sends afterwards must still reach its peer, followed by its end-of-stream.
-    `which` = 'dst' or 'app' (the endpoint that stops receiving)."""
-    o = tg.Opts(nflows=1, steps=0)
-    sc = tg.Scenario(rng, o)
-    try:
-        t = sc.t
-        full = Io('ok', 'd65536', 's65536', False)
-        near, far = ('s', 'c') if which == 'dst' else ('c', 's')
-        other = 'app' if which == 'dst' else 'dst'
-        sc.do(('accept',))
-        sc.do(('deliver', 's', 'ok'))
-        sc.do(('deliver', 's', 'ok'))
-        if sc.stop or not t.flows:
-            return sc.s.ins, sc.s.outs
-        sc.env_write(0, which, tg.payload(rng, 3000, 2))       # the endpoint's own data, part 1
-        sc.env_write(0, other, tg.payload(rng, 1000, 1))       # data towards it, which it will refuse
-        sc.do(('cb', far, 0, full))
-        srcq = t.cmux if far == 'c' else t.smux
-        while srcq.outbuf and not sc.stop:
-            sc.do(('deliver', near, 'ok'))
-        sc.refused.add((0, which))
-        sc.do(('cb', near, 0, Io('ok', 'd65536', 'p', False)))  # reads part 1, the write towards the endpoint gets EPIPE
-        sc.env_write(0, which, tg.payload(rng, 2000, 3))       # part 2, sent after it stopped receiving
-        sc.do(('cb', near, 0, full))
-        sc.drain(on_round=lambda s_: tg.oracle_eof_order(ctx, s_, 'C02', 'drain'))
-        sc.do(('de', 0) if which == 'dst' else ('ae', 0))
-        sc.do(('ae', 0) if which == 'dst' else ('de', 0))
-        q = sc.drain(on_round=lambda s_: tg.oracle_eof_order(ctx, s_, 'C02', 'final drain'))
-        if not sc.stop:
-            tg.oracle_eof_order(ctx, sc, 'C02', 'end')
-            tg.oracle_complete(ctx, sc, 'C02', q)
-            if q:
-                tg.oracle_teardown(ctx, sc, 'C02')
-                tg.oracle_quiet(ctx, sc, 'C02')
-        tg.oracle_alive(ctx, sc, 'C02', 'run')
-        return sc.s.ins, sc.s.outs
-    finally:
-        sc.close()
-
-
 def reuse_scenario(ctx, rng, maxchan):
     """Finished flows make their identifier reusable: with MAX_CHANNEL = maxchan, maxchan + 2 flows that each
     run to completion one after the other must all be accepted."""
@@ -244,7 +202,7 @@ def run(ctx):
         ctx.mark(('directed', tag), True)
         ctx.hist('kind=directed:' + tag.split('-')[0])
     for which in ('dst', 'app'):
-        ins, outs = reader_closed_keeps_sending(ctx, rng, which)
+        ins, outs = tg.reader_closed_keeps_sending(ctx, rng, 'C02', which)
         all_in.append(ins)
         all_out.append(outs)
         ctx.count()
